@@ -16,6 +16,68 @@ def check(conds, timeout_s=60, want_model=True):
     return r, m, time.time() - t0
 
 
+def _mul_terms(e, seen, out):
+    if e.get_id() in seen:
+        return
+    seen.add(e.get_id())
+    for c in e.children():
+        _mul_terms(c, seen, out)
+    if z3.is_app_of(e, z3.Z3_OP_BMUL) and sum(0 if z3.is_bv_value(c) else 1 for c in e.children()) >= 2:
+        out.append(e)
+
+
+def abstract_muls(conds):
+    """Replace every symbolic x symbolic bit-vector multiplication by an uninterpreted function of its operands
+    (shared between implementation and specification terms).  Sound for UNSAT: any model of the original formula is a
+    model of the abstraction.  A SAT answer of the abstraction proves nothing and is re-checked concretely."""
+    # one normal form for implementation and specification terms (the executor simplifies guards as it goes)
+    conds = [z3.simplify(c) for c in conds]
+    ufs = {}
+    for _ in range(8):
+        terms = []
+        seen = set()
+        for c in conds:
+            _mul_terms(c, seen, terms)
+        # innermost first: only terms none of whose children contains another mul term
+        ids = {t.get_id() for t in terms}
+
+        def has_inner(t):
+            stack = list(t.children())
+            while stack:
+                x = stack.pop()
+                if x.get_id() in ids:
+                    return True
+                stack.extend(x.children())
+            return False
+        inner = [t for t in terms if not has_inner(t)]
+        if not inner:
+            break
+        subs = []
+        for t in inner:
+            w = t.size()
+            args = sorted(t.children(), key=lambda a: a.get_id())
+            if len(args) != 2:
+                continue
+            f = ufs.get(w)
+            if f is None:
+                f = ufs[w] = z3.Function('mul_uf_%d' % w, z3.BitVecSort(w), z3.BitVecSort(w), z3.BitVecSort(w))
+            subs.append((t, f(args[0], args[1])))
+        if not subs:
+            break
+        conds = [z3.substitute(c, *subs) for c in conds]
+    return conds
+
+
+def check_abstract_first(conds, timeout_s=60):
+    """UNSAT through the multiplication abstraction if possible, otherwise the exact query"""
+    conds = [c if not isinstance(c, bool) else z3.BoolVal(c) for c in conds]
+    r, m, s = check(abstract_muls(conds), min(timeout_s, 30), want_model=False)
+    if r == 'unsat':
+        return r, None, s
+    r2, m2, s2 = check(conds, timeout_s)
+    return r2, m2, s + s2
+
+
 def model_int(m, v, signed=True):
     x = m.eval(v, model_completion=True)
     if z3.is_bv(x):
@@ -26,7 +88,7 @@ def model_int(m, v, signed=True):
 LEMMAS = None
 
 
-def nia_lemmas():
+def nia_lemmas(mul=False):
     """The three unbounded-integer lemmas of DESIGN §2.2 (C division axioms => floor quotient / Python remainder /
     multiplication-overflow test).  Each must be unsat; returns [(name, result, seconds)]."""
     a, b, q, r = z3.Ints('a b q r')
@@ -41,4 +103,15 @@ def nia_lemmas():
     out.append(('floor-quotient lemma', ) + check([cdiv, neg1], 30, False)[::2])
     neg2 = z3.Not(z3.And(a == fq * b + fr, z3.If(b > 0, z3.And(0 <= fr, fr < b), z3.And(b < fr, fr <= 0))))
     out.append(('python-remainder lemma', ) + check([cdiv, neg2], 30, False)[::2])
+    if mul:
+        # the division-based multiplication-overflow test of Overflow.c (mul_const): with C (truncating) division,
+        #   b > 1 : a > MAX/b or a < MIN/b   <=>  a*b outside [MIN, MAX]
+        #   b < -1: a > MIN/b or a < MAX/b   <=>  a*b outside [MIN, MAX]
+        MAX, MIN, q1, r1, q2, r2 = z3.Ints('MAX MIN q1 r1 q2 r2')
+        def tdiv(n, d, q_, r_):
+            return z3.And(n == q_ * d + r_, z3.If(d > 0, z3.And(-d < r_, r_ < d), z3.And(d < r_, r_ < -d)), z3.Or(r_ == 0, (r_ > 0) == (n > 0)))
+        base = [MAX > 0, MIN == -MAX - 1, tdiv(MAX, b, q1, r1), tdiv(MIN, b, q2, r2)]
+        ovf = z3.Or(a * b > MAX, a * b < MIN)
+        out.append(('mul-overflow lemma (b > 1)', ) + check(base + [b > 1, z3.Or(a > q1, a < q2) != ovf], 30, False)[::2])
+        out.append(('mul-overflow lemma (b < -1)', ) + check(base + [b < -1, z3.Or(a > q2, a < q1) != ovf], 30, False)[::2])
     return out
